@@ -23,7 +23,7 @@ from mc.core import Acc, rotate
 ID = "C20"
 LEVEL = "model_checking"
 ASSUMPTIONS = [
-    "one generated contract: setUp() stores s = 7, a value at the hash-valued constant slot keccak(0x1234) and creates an invariant target {inc, step}; tests: fail (x == 42), pass (infeasible), write (stores x then reads it), read (s must be 7), hash (keccak(0x1234) computed at run time), slot (reads the constant slot), reread (re-reads calldata after a branch; can never fail), five (same shape; fails exactly for x == 5), two invariant tests at depth 2; loop (needs three loop iterations; the contract-level annotation says --loop 4) and ann (function-level annotation --loop 1)",
+    "one generated contract: setUp() stores s = 7, a value at the hash-valued constant slot keccak(0x1234) and creates an invariant target {inc, step}; tests: fail (x == 42), pass (infeasible), write (stores x then reads it), read (s must be 7), hash (keccak(0x1234) computed at run time), slot (reads the constant slot), reread (re-reads calldata after a branch; can never fail), five (same shape; fails exactly for x == 5), two invariant tests at depth 2; ext1/ext2 (read the code size / code hash of a symbolic address created in setUp: the alias candidates must be considered afresh by every test); loop (needs three loop iterations; the contract-level annotation says --loop 4) and ann (function-level annotation --loop 1)",
     "histories: every ordered subset of the tests up to the bound, every test doubled, the same history run twice in one process, three injective uid() generators (counter, reversed, multiplicative)",
     "normalised result = (exit code, path counts, number of counterexamples, validity flags, replay outcome of every valid counterexample, number of bounded loops); concrete model values are not compared (solvers may return any model), their replay on the reference EVM is",
     "solo results are additionally compared with a brute force over x in {0,1,5,7,42,2^256-1} on mc/refevm.py",
@@ -37,7 +37,8 @@ X = e2e.arg(0)
 def contract():
     t = invgen.mk_target("Target0", ["inc", "step"])
     init = t.creation()
-    setup = [("push", 7), "PUSH0", "SSTORE", ("push", 42), ("pushn", 32, CSLOT), "SSTORE",
+    new_addr = e2e.svm("createAddress(string)", [("push", 32)], retsize=32, mem=0x80, pop=True) + [("push", 0x80), "MLOAD", ("push", 3), "SSTORE"]
+    setup = new_addr + [("push", 7), "PUSH0", "SSTORE", ("push", 42), ("pushn", 32, CSLOT), "SSTORE",
              ("sizeof", "init0"), ("offsetof", "init0"), ("push", 0x100), "CODECOPY", ("sizeof", "init0"), ("push", 0x100), "PUSH0", "CREATE", ("push", invgen.TARGET_SLOT), "SSTORE",
              "STOP", ("data", "init0", init)]
     F = {"setUp()": setup}
@@ -61,15 +62,20 @@ def contract():
     F["check_loop(uint256)"] = ["PUSH0", ("label", "top")] + n + ["DUP2", "LT", "ISZERO", ("ref", "exit"), "JUMPI", ("push", 1), "ADD", ("ref", "top"), "JUMP", ("label", "exit")] + \
         e2e.if_then(["DUP1", ("push", 3), "EQ"], e2e.panic(1), "f") + ["STOP"]
     F["check_ann(uint256)"] = e2e.if_then(X + [("push", 1), "EQ"], e2e.panic(1), "a") + ["STOP"]
+    # a symbolic address created in setUp(): each test that touches it must consider every account it may denote
+    A3 = [("push", 3), "SLOAD"]
+    F["check_ext1(uint256)"] = e2e.if_then(A3 + ["EXTCODESIZE", ("push", len(t.runtime())), "EQ"], e2e.panic(1), "a") + ["STOP"]  # fails iff a is the target
+    F["check_ext2(uint256)"] = e2e.if_then(A3 + ["EXTCODEHASH", "ISZERO"], e2e.panic(1), "a") + ["STOP"]  # fails iff a is a non-existent account
     return e2e.Contract("Iso", F, natspec="@custom:halmos --loop 4", devdoc={"check_ann(uint256)": "--loop 1"}), t
 
 
 TESTS = ["check_fail(uint256)", "check_pass(uint256)", "check_write(uint256)", "check_read(uint256)", "check_hash(uint256)", "check_slot(uint256)",
-         "check_reread(uint256)", "check_five(uint256)", "invariant_a()", "invariant_b()", "check_loop(uint256)", "check_ann(uint256)"]
+         "check_reread(uint256)", "check_five(uint256)", "invariant_a()", "invariant_b()", "check_loop(uint256)", "check_ann(uint256)", "check_ext1(uint256)", "check_ext2(uint256)"]
 # ground truth: the inputs (of the brute-force domain) that make each regular test fail
 DOM = [0, 1, 5, 7, 42, 2**256 - 1]
 EXPECT_FAIL = {"check_fail(uint256)": [42], "check_pass(uint256)": [], "check_write(uint256)": [5], "check_read(uint256)": [], "check_hash(uint256)": [1],
                "check_slot(uint256)": [], "check_reread(uint256)": [], "check_five(uint256)": [5], "check_loop(uint256)": [7, 2**256 - 1], "check_ann(uint256)": [1]}
+EXPECT_EXIT = {"check_ext1(uint256)": 1, "check_ext2(uint256)": 1}  # decided by the symbolic address of setUp(), not by x
 EXPECT_INV = {"invariant_a()": 1, "invariant_b()": 0}  # at depth 2: s reaches 2 (inc, inc) -> a fails; 5 needs inc, inc, step -> b passes
 
 
@@ -106,7 +112,7 @@ def run_history(hist, uid_mode, depth=2):
 
 def ref_world(c):
     if "w" not in _CACHE:
-        w = e2e.ref_deploy(c)
+        w = e2e.ref_deploy(c, tape=[0x1234])  # the reference's setUp() draws an address without code for svm.createAddress
         o = e2e.ref_call(w, "setUp()")
         assert o.kind == "success", o
         _CACHE["w"] = w
@@ -138,6 +144,9 @@ def solo_results(acc, uid_mode="counter"):
                 acc.violation(f"solo-spurious:{tname}", f"{tname} alone: FAIL with a valid counterexample although no input makes it fail (state leaked between sibling paths?)", case)
             if fails and r.exitcode == 1 and "success" in out[tname][3]:
                 acc.violation(f"solo-cex:{tname}", f"{tname} alone: a counterexample marked valid does not replay (x={[model_x(m) for m in r.models]})", case)
+        elif tname in EXPECT_EXIT:
+            if r.exitcode != EXPECT_EXIT[tname]:
+                acc.violation(f"solo-ext:{tname}", f"{tname} alone: exit code {r.exitcode}, expected {EXPECT_EXIT[tname]} (the address created in setUp() may denote the target / no account)", case)
         else:
             if r.exitcode != EXPECT_INV[tname]:
                 acc.violation(f"solo-inv:{tname}", f"{tname} alone at depth 2: exit code {r.exitcode}, expected {EXPECT_INV[tname]}", case)
